@@ -1,6 +1,7 @@
 // wiredrv binds spec/Wire.tla to the real encoders and send functions of irai/packet (C03, C07).
 //
 //	wiredrv -build v.ndjson -out r.ndjson [-k 3]    execute TLC build sequences / DHCP layout vectors
+//	wiredrv -concurrent v.ndjson -out r.ndjson [-par 6] [-dur 2]   the same cases on -par goroutines at once (no shared state)
 //	wiredrv -send  v.ndjson -out r.ndjson [-k 2]    call every send function with concretised parameter classes
 //	wiredrv -frames f.hex [-mac 02:00:00:00:00:01] [-flat] -out r.ndjson   check recorded frames
 //
@@ -26,6 +27,7 @@ import (
 	"sort"
 	"strconv"
 	"strings"
+	"time"
 
 	"verifharness/vh"
 )
@@ -266,6 +268,9 @@ func hasLevel(r *result, level string) bool {
 
 func main() {
 	build := flag.String("build", "", "ndjson file of build behaviours / dhcp vectors exported by TLC (WireMC)")
+	conc := flag.String("concurrent", "", "ndjson file of build / dhcp / alias cases executed by -par goroutines for -dur seconds")
+	par := flag.Int("par", 6, "-concurrent: number of goroutines")
+	dur := flag.Float64("dur", 2, "-concurrent: seconds")
 	send := flag.String("send", "", "ndjson file of send vectors exported by TLC (WireMC)")
 	frames := flag.String("frames", "", "file of hex frames, one per line")
 	mac := flag.String("mac", "02:00:00:00:00:01", "host NIC MAC for -frames")
@@ -290,6 +295,8 @@ func main() {
 		os.Exit(2)
 	}
 	switch {
+	case *conc != "":
+		concurrentMode(readVectors(*conc), *out, *par, time.Duration(*dur*float64(time.Second)), seed)
 	case *build != "":
 		buildMode(readVectors(*build), *out, *k, seed)
 	case *send != "":
